@@ -98,6 +98,8 @@ reg = {
         "h_btree_base.rs": "src/tree_store/btree_base.rs",
         "x_buddy.rs": "src/tree_store/page_store/buddy_allocator.rs",
         "x_region.rs": "src/tree_store/page_store/region.rs",
+        "x_tracker.rs": "src/transaction_tracker.rs",
+        "x_unpersisted.rs": "src/tree_store/page_store/page_manager.rs",
     },
     # bounded Kani twins of Verus obligations: run only after a Verus refutation, to look for a concrete failing input
     "twins": {
@@ -130,6 +132,10 @@ NATIVE = {
     "X-hfo": {"id": "C14-X-hfo", "test": "x14_highest_free_order_contract", "bound": "same states"},
     "X-ser": {"id": "C14-X-ser", "test": "x14_serialize_roundtrip", "bound": "same states: to_vec/from_bytes preserves every bit of every order, len, max_order, the hash, and the next allocation of each order"},
     "X-trk-resize": {"id": "C14-X-trk-resize", "test": "x14_region_tracker_resize_contract", "bound": "1..70 regions grown by 0..70, 8 mark patterns"},
+    "X-pins3": {"id": "X-pins3", "test": "xb_tracker_contracts_depth3", "bound": "every sequence of <= 3 calls of the 9 mutating TransactionTracker functions over transaction ids {1,2,3} and savepoint ids {1,2,3,4..}; per-call contract with full frame against a ghost model (pin counts, savepoints, pending non-durable commits), all 12 observers compared after every call"},
+    "X-pins4": {"id": "X-pins4", "test": "xb_tracker_contracts_depth4", "bound": "same, <= 4 calls", "tier": "thorough"},
+    "X-unp3": {"id": "X-unp3", "test": "xb_unpersisted_contracts_depth3", "bound": "every sequence of <= 3 calls of the 11 mutating UnpersistedState operations over 3 pages and transaction ids {1,2,3}; per-call contract with full frame against a ghost model, representation invariant (allocation_txn is the reverse index of allocations, no empty records, post_commit_allocations subset of pages), allocations_after / data_freed_in_range(all bounds) / pages_pending_free / contains compared after every call"},
+    "X-unp4": {"id": "X-unp4", "test": "xb_unpersisted_contracts_depth4", "bound": "same, <= 4 calls over 2 pages", "tier": "thorough"},
     "X-trk-ser": {"id": "C14-X-trk-ser", "test": "x14_region_tracker_roundtrip", "bound": "1..130 regions, 8 mark patterns"},
 }
 P["C14"] = {
@@ -197,14 +203,16 @@ P["C06"] = {
                                               "BuddyAllocator::record_alloc", "BuddyAllocator::record_alloc_inner", "BuddyAllocator::new", "BS::*",
                                               "InMemoryState::allocate_helper_retry", "lemma_*"]}],
     "kani": [K["C06-K1"], K["C06-K2"], alias("C10-F6a", "C06-K1b")],
+    "native": [dict(NATIVE["X-unp3"], id="C06-X-unp3"), dict(NATIVE["X-unp4"], id="C06-X-unp4"), dict(NATIVE["X-pins3"], id="C06-X-pins3"), dict(NATIVE["X-pins4"], id="C06-X-pins4")],
     "explanation": "Kernel: no block is handed out twice (alloc returns a subset of the free set and removes exactly it - shared with C14); freed-page records are keyed (transaction, page) lexicographically so the reclaimer's range ..(free_until, 0) can never contain a record of a transaction >= free_until; the page-list record returns what was stored.",
-    "not_decided": "the accounting equation over histories, readers and savepoints; the in-memory unpersisted sets (BTreeMap/HashSet: out of CBMC's reach, no Verus model); conditional_free",
+    "not_decided": "the accounting equation over histories, readers and savepoints; conditional_free; the in-memory bookkeeping only BOUNDED (native, never counted as proved): UnpersistedState (allocations_after(t) returns exactly the allocations of later transactions, claim drops page and record together, data_freed_in_range / drop_data_freed_after bounds) and the TransactionTracker pin counts that define the oldest live reader",
 }
 P["C07"] = {
     "level": "proof",
     "kani": [K["C07-K1s"], K["C07-K1n"]],
-    "explanation": "Kernel: the persistent-savepoint record round trip (id, transaction id, user root) and its byte layout, for every id and every root header.",
-    "not_decided": "restore semantics, savepoint bookkeeping in the tracker (BTreeMap), histories, crash; malformed-record error returns",
+    "native": [dict(NATIVE["X-pins3"], id="C07-X-pins3"), dict(NATIVE["X-pins4"], id="C07-X-pins4"), dict(NATIVE["X-unp3"], id="C07-X-unp3")],
+    "explanation": "Kernel: the persistent-savepoint record round trip (id, transaction id, user root) and its byte layout, for every id and every root header. BOUNDED (native): the savepoint bookkeeping of the real TransactionTracker - every registered savepoint holds exactly one pin on its transaction until it is deallocated, invalidation keeps the pins, oldest_savepoint_excluding / list_savepoints_after / any_*_savepoint_exists agree with the set of valid savepoints.",
+    "not_decided": "restore semantics (restore_savepoint_inner), histories, crash; malformed-record error returns; the tracker and the unpersisted allocation records beyond the stated call-sequence bound",
 }
 P["C09"] = {
     "level": "other",
@@ -214,12 +222,12 @@ P["C09"] = {
 }
 P["C11"] = {
     "level": "proof",
-    "native": [dict(NATIVE["X-ser"], id="C11-X-ser"), dict(NATIVE["X-trk-ser"], id="C11-X-trk-ser"), dict(NATIVE["X-resize"], id="C11-X-resize")],
+    "native": [dict(NATIVE["X-ser"], id="C11-X-ser"), dict(NATIVE["X-trk-ser"], id="C11-X-trk-ser"), dict(NATIVE["X-resize"], id="C11-X-resize"), dict(NATIVE["X-pins3"], id="C11-X-pins3")],
     "verus": [{"unit": "alloc", "functions": ["BuddyAllocator::record_alloc", "BuddyAllocator::record_alloc_inner", "BS::*", "lemma_*", "Allocators::new", "RegionTracker::new", "BuddyAllocator::new",
                                               "Allocators::resize_to", "Allocators::lemma_*", "DatabaseLayout::recalculate", "DatabaseHeader::layout", "DatabaseHeader::set_layout"]}],
     "kani": [K["C11-R3"]],
     "explanation": "Kernel: rebuild = reset + one record_alloc per reachable page; record_alloc marks exactly the named block (true iff the block lay inside a free block, which it then no longer does, every other page keeps its state) or refuses with the allocator unchanged, I1 and I2 preserved; (R4) Allocators::resize_to - the reconciliation of a loaded allocator state with the layout of the file being opened - gives every region the size the layout says, keeps wf and TRK, marks dropped regions full and leaves unchanged regions untouched (against assumed contracts of the resize family); the allocator-state key codec orders Region(i) by i and before the tracker and the transaction id, which the snapshot loader's range scans rely on.",
-    "not_decided": "which pages ARE reachable; is_valid_allocator_state's staleness comparison (needs a B-tree); the tracker's persistent-savepoint pins (BTreeMap); histories and crash points",
+    "not_decided": "which pages ARE reachable; is_valid_allocator_state's staleness comparison (needs a B-tree); histories and crash points; the tracker's persistent-savepoint pins rebuilt at open (register_persistent_savepoint: one pin per savepoint, also when several savepoints share a transaction) only BOUNDED (native C11-X-pins3)",
 }
 P["C15"] = {
     "level": "proof",
